@@ -509,7 +509,17 @@ impl WalManager {
                 .append(true)
                 .open(&path)?;
 
-            let size = file.metadata()?.len();
+            let mut size = file.metadata()?.len();
+
+            // A crash can leave a torn record at the end of the file. Appending behind it
+            // would make every later record unreadable, so cut the file back to its last
+            // intact record first.
+            let valid = Self::intact_prefix_len(&path, size)?;
+            if valid < size {
+                file.set_len(valid)?;
+                file.sync_all()?;
+                size = valid;
+            }
 
             *guard = Some(LogFile {
                 writer: BufWriter::new(file),
@@ -519,6 +529,32 @@ impl WalManager {
             });
         }
         Ok(())
+    }
+
+    /// Length of the longest prefix of the file that consists of whole records
+    /// (length prefix, payload, matching CRC-32).
+    fn intact_prefix_len(path: &Path, size: u64) -> Result<u64> {
+        let mut reader = BufReader::new(File::open(path)?);
+        let mut pos = 0u64;
+        loop {
+            let mut len_buf = [0u8; 4];
+            if size - pos < 4 || reader.read_exact(&mut len_buf).is_err() {
+                return Ok(pos);
+            }
+            let len = u64::from(u32::from_le_bytes(len_buf));
+            if size - pos - 4 < len + 4 {
+                return Ok(pos);
+            }
+            let mut data = vec![0u8; len as usize];
+            let mut checksum_buf = [0u8; 4];
+            if reader.read_exact(&mut data).is_err()
+                || reader.read_exact(&mut checksum_buf).is_err()
+                || u32::from_le_bytes(checksum_buf) != crc32fast::hash(&data)
+            {
+                return Ok(pos);
+            }
+            pos += 8 + len;
+        }
     }
 
     fn log_path(&self, sequence: u64) -> PathBuf {
